@@ -376,8 +376,9 @@ def parse_terminator(s):
         except MirError:
             return Term('unsupported', text=s)
     # diverging call without destination target: `_x = panic(...) -> unwind continue`
-    m = re.match(r'^(.*?) = (.*) -> unwind \w+$', s, re.S)
+    m = re.match(r'^(.*?) = (.*) -> unwind \w+$', s, re.S) or re.match(r'^(.*?) = (.*\)) -> bb\d+$', s, re.S)
     if m:
+        # `-> bbN` without `return:` = the call never returns; bbN is the unwind (cleanup) target
         return Term('diverge', m.group(2), s)
     return Term('unsupported', text=s)
 
@@ -588,7 +589,7 @@ class Program:
             if s.endswith(';'):
                 body = s[:-1]
                 is_term = (body in ('return', 'unreachable', 'resume', 'abort') or body.startswith(('goto ', 'switchInt(', 'drop(', 'assert(', 'falseEdge', 'falseUnwind', 'unwind '))
-                           or ' -> [' in body or re.search(r' -> unwind \w+$', body))
+                           or ' -> [' in body or re.search(r' -> unwind \w+$', body) or re.search(r'\) -> bb\d+$', body))
                 if is_term:
                     cur.term = parse_terminator(body)
                 else:
